@@ -27,7 +27,19 @@ impl Scratch {
         let n = COUNTER.fetch_add(1, Ordering::SeqCst);
         let dir = base.join(format!("{}-{}", tag, n));
         let _ = std::fs::remove_dir_all(&dir);
-        std::fs::create_dir_all(&dir).expect("create scratch dir");
+        // (another thread that drops its scratch directory removes the base directory when it is empty, which may happen
+        // between the two steps of create_dir_all: try again)
+        let mut tries = 0;
+        loop {
+            match std::fs::create_dir_all(&dir) {
+                Ok(()) => break,
+                Err(e) if tries < 20 && e.kind() == std::io::ErrorKind::NotFound => {
+                    tries += 1;
+                    std::thread::yield_now();
+                }
+                Err(e) => panic!("create scratch dir: {:?}", e),
+            }
+        }
         Scratch { dir }
     }
     pub fn write(&self, rel: &str, contents: &[u8]) {
